@@ -4,6 +4,11 @@ import (
 	"crypto"
 	"crypto/x509"
 	"fmt"
+
+	"github.com/gr33nbl00d/caddy-revocation-validator/core"
+	"github.com/gr33nbl00d/caddy-revocation-validator/crl/crlloader"
+	"go.uber.org/zap"
+
 	"math/big"
 	"net/http"
 	"net/http/httptest"
@@ -153,6 +158,7 @@ func runC17(r *Run) {
 				a.PeakLive>>20, small, b.PeakLive>>20, large, growth>>20, slack>>20), map[string]interface{}{"small": a, "large": b})
 		}
 	}
+	c17Phases(r, ca, small, large)
 	// correspondence part: the model's largest request on documents with growing entry counts stays constant
 	d, err := NewDriver()
 	if err != nil {
@@ -178,5 +184,71 @@ func runC17(r *Run) {
 		r.Op(m.opLine, obs)
 		r.Eval(fmt.Sprintf("model-n=%d/%x", n, digestOf(crypto.SHA256, der)[:4]), true)
 		r.Count("model-maxalloc:" + m.fields["maxalloc"])
+	}
+}
+
+// c17Phases measures the allocation VOLUME (TotalAlloc, which no sampling can miss) of the phases around the parser, each
+// on its own: the download through the real loaders (URL, CDP set, file) and a lookup in the loaded disk store. A phase that
+// copies its input through a fixed buffer allocates the same for N and for 10N entries; one that holds the list (or a copy
+// of it) in memory allocates in proportion.
+func c17Phases(r *Run, ca *CA, small, large int) {
+	dir := scratchDir("c17p")
+	defer os.RemoveAll(dir)
+	files := map[int]string{}
+	for _, n := range []int{small, large} {
+		p := filepath.Join(dir, fmt.Sprintf("n%d.crl", n))
+		c17BuildCRLFile(ca, n, false, p)
+		files[n] = p
+	}
+	srv := httptest.NewServer(http.HandlerFunc(func(w http.ResponseWriter, req *http.Request) {
+		http.ServeFile(w, req, filepath.Join(dir, filepath.Base(req.URL.Path)))
+	}))
+	defer srv.Close()
+	const slack = 4 << 20
+	measure := func(f func()) uint64 {
+		var a, b runtime.MemStats
+		runtime.GC()
+		runtime.ReadMemStats(&a)
+		f()
+		runtime.ReadMemStats(&b)
+		return b.TotalAlloc - a.TotalAlloc
+	}
+	for _, kind := range []string{"url", "cdp", "file"} {
+		alloc := map[int]uint64{}
+		ok := true
+		for _, n := range []int{small, large} {
+			loc := &core.CRLLocations{}
+			u := srv.URL + "/" + filepath.Base(files[n])
+			switch kind {
+			case "url":
+				loc.CRLUrl = u
+			case "cdp":
+				loc.CRLDistributionPoints = []string{"ldap://directory.example/cn=crl", u}
+			case "file":
+				loc.CRLFile = files[n]
+			}
+			loader, err := crlloader.DefaultCRLLoaderFactory{}.CreatePreferredCrlLoader(loc, zap.NewNop())
+			if err != nil {
+				r.Violate("C17 harness-no-loader", err.Error(), nil)
+				return
+			}
+			target := filepath.Join(dir, fmt.Sprintf("dl-%s-%d", kind, n))
+			var lerr error
+			alloc[n] = measure(func() { lerr = loader.LoadCRL(target) })
+			want, _ := os.Stat(files[n])
+			got, serr := os.Stat(target)
+			if lerr != nil || serr != nil || got.Size() != want.Size() {
+				ok = false
+				r.Violate("C17 large-crl-not-processed download="+kind, fmt.Sprintf("download of the %d-entry CRL failed: %v %v", n, lerr, serr), nil)
+			}
+			os.Remove(target)
+		}
+		r.Eval("phase/download/"+kind, ok)
+		r.Count("phase:download:" + kind)
+		r.Sample(map[string]interface{}{"phase": "download " + kind, "alloc_small": alloc[small], "alloc_large": alloc[large]})
+		if ok && alloc[large] > alloc[small]+slack {
+			r.Violate("C17 memory-grows-with-entries phase=download-"+kind, fmt.Sprintf("the %s download allocated %d bytes for %d entries and %d bytes for %d entries (slack %d)",
+				kind, alloc[small], small, alloc[large], large, slack), map[string]interface{}{"small": alloc[small], "large": alloc[large]})
+		}
 	}
 }
